@@ -10,3 +10,4 @@ import CtyModel.Props.C04
 import CtyModel.Props.C16
 import CtyModel.Props.C15
 import CtyModel.Props.C13
+import CtyModel.Props.C06
